@@ -217,9 +217,43 @@ impl Case {
     }
 
     pub fn run(&self) -> Result<Vec<u8>, String> {
-        let mut g = self.generator();
-        self.warm_up(&mut g);
-        self.run_on(&mut g)
+        let c = self.clone();
+        watchdog(self, move || {
+            let mut g = c.generator();
+            c.warm_up(&mut g);
+            c.run_on(&mut g)
+        })
+    }
+}
+
+/// run one case on a worker thread (8 MiB stack, like the main thread) under a watchdog: a
+/// generation that does not come back is reported as `hang` and the process ends (the worker
+/// cannot be stopped) — C09 "does not loop forever"
+pub fn watchdog<T: Send + 'static>(
+    c: &Case,
+    f: impl FnOnce() -> Result<T, String> + Send + 'static,
+) -> Result<T, String> {
+    let (tx, rx) = std::sync::mpsc::channel();
+    let big = c.min.max(c.max) as u64 / 1000;
+    let limit = std::time::Duration::from_millis(30_000 + big * big * 25);
+    let h = std::thread::Builder::new()
+        .stack_size(8 << 20)
+        .spawn(move || {
+            let _ = tx.send(f());
+        })
+        .expect("spawn");
+    match rx.recv_timeout(limit) {
+        Ok(r) => {
+            let _ = h.join();
+            r
+        }
+        Err(std::sync::mpsc::RecvTimeoutError::Timeout) => {
+            use std::io::Write;
+            println!("oracle {} result=hang:no_result_after_{}s", c.line(), limit.as_secs());
+            let _ = std::io::stdout().flush();
+            std::process::exit(0);
+        }
+        Err(_) => Err("panic:worker_thread_died".to_string()),
     }
 }
 
@@ -392,8 +426,14 @@ fn cmd_oracle(args: &[String]) {
     }
 }
 
-/// one traced generation, as a `trace` request line
+/// one traced generation, as a `trace` request line (under the watchdog)
 pub fn trace_line(c: &Case) -> String {
+    let cc = c.clone();
+    let r = watchdog(c, move || Ok(trace_line_inner(&cc)));
+    r.unwrap_or_else(|e| format!("trace {} target=- bodyend=- mutated=0 rewritten=0 final=- steps=- result={}", c.line(), e))
+}
+
+fn trace_line_inner(c: &Case) -> String {
     let mut g = c.generator();
     c.warm_up(&mut g);
     verif::trace_start();
@@ -478,15 +518,19 @@ pub fn float_table(recs: &[Rec]) -> String {
 }
 
 pub fn gen_line(c: &Case) -> String {
-    let mut g = c.generator();
-    verif::trace_start();
-    let res = c.run_on(&mut g);
-    let recs = verif::trace_take();
-    let result = match res {
-        Ok(out) => format!("ok:{}", hex(&out)),
-        Err(e) => e,
-    };
-    format!("gen {} floats={} result={}", c.line(), float_table(&recs), result)
+    let cc = c.clone();
+    let r = watchdog(c, move || {
+        let mut g = cc.generator();
+        verif::trace_start();
+        let res = cc.run_on(&mut g);
+        let recs = verif::trace_take();
+        let result = match res {
+            Ok(out) => format!("ok:{}", hex(&out)),
+            Err(e) => e,
+        };
+        Ok(format!("gen {} floats={} result={}", cc.line(), float_table(&recs), result))
+    });
+    r.unwrap_or_else(|e| format!("gen {} floats=- result={}", c.line(), e))
 }
 
 /// S3: generate_from_arbitrary on structured and exhaustive inputs, for the exact model
@@ -576,6 +620,115 @@ fn cmd_case(args: &[String]) {
     }
 }
 
+/// C12: default settings, one generation per (protocol, seed); `--ext 1` also enables the opt-ins
+fn cmd_seeds(args: &[String]) {
+    let from: u64 = arg_val(args, "--from", "0").parse().unwrap();
+    let to: u64 = arg_val(args, "--to", "100").parse().unwrap();
+    let ext = arg_val(args, "--ext", "0") == "1";
+    let protos: Vec<usize> = arg_val(args, "--protos", "0,1,2,3,4,5").split(',').filter_map(|x| x.parse().ok()).collect();
+    for seed in from..to {
+        for &p in &protos {
+            let c = Case {
+                id: seed * 6 + p as u64,
+                proto: p,
+                unsafe_m: false,
+                ext,
+                buf: ext,
+                min: 60,
+                max: 300,
+                mask: 0,
+                rate_bits: 0.1f64.to_bits(),
+                mode: Mode::Rand(seed),
+                warm: 0,
+                mu: false,
+            };
+            match c.run() {
+                Ok(out) => println!("oracle {} result=ok:{}", c.line(), hex(&out)),
+                Err(e) => println!("oracle {} result={}", c.line(), e),
+            }
+        }
+    }
+}
+
+/// C07: the same cases generated concurrently on `--threads` threads, each thread with its own
+/// generators; every thread must produce exactly what a sequential run produces
+fn cmd_threads(args: &[String]) {
+    let n: u64 = arg_val(args, "--cases", "200").parse().unwrap();
+    let seed: u64 = arg_val(args, "--seed", "1").parse().unwrap();
+    let threads: usize = arg_val(args, "--threads", "16").parse().unwrap();
+    let mut rng = Rng(seed ^ 0x746872);
+    let cases: Vec<Case> = (0..n)
+        .map(|id| {
+            let mut c = sample_case(&mut rng, id, if id % 2 == 0 { "default" } else { "small" }, "mix");
+            if c.max > 400 {
+                c.max = 400;
+                c.min = c.min.min(300);
+            }
+            c
+        })
+        .collect();
+    let run_all = |cases: &[Case], rot: usize| -> Vec<(u64, String)> {
+        // each thread walks the cases in a different rotation, so that the interleaving of
+        // protocols / configurations differs between threads
+        let k = cases.len();
+        (0..k)
+            .map(|i| {
+                let c = &cases[(i + rot) % k];
+                let mut g = c.generator();
+                c.warm_up(&mut g);
+                let r = match c.run_on(&mut g) {
+                    Ok(o) => format!("ok:{:016x}:{}", fnv(o.iter().copied()), o.len()),
+                    Err(e) => e,
+                };
+                (c.id, r)
+            })
+            .collect()
+    };
+    let mut reference = run_all(&cases, 0);
+    reference.sort();
+    let cases = std::sync::Arc::new(cases);
+    let handles: Vec<_> = (0..threads)
+        .map(|t| {
+            let cs = cases.clone();
+            std::thread::Builder::new()
+                .stack_size(8 << 20)
+                .spawn(move || {
+                    let k = cs.len();
+                    let mut v: Vec<(u64, String)> = (0..k)
+                        .map(|i| {
+                            let c = &cs[(i + t * 7) % k];
+                            let mut g = c.generator();
+                            c.warm_up(&mut g);
+                            let r = match c.run_on(&mut g) {
+                                Ok(o) => format!("ok:{:016x}:{}", fnv(o.iter().copied()), o.len()),
+                                Err(e) => e,
+                            };
+                            (c.id, r)
+                        })
+                        .collect();
+                    v.sort();
+                    v
+                })
+                .unwrap()
+        })
+        .collect();
+    let mut bad = 0;
+    for (t, h) in handles.into_iter().enumerate() {
+        let v = h.join().unwrap_or_default();
+        for (a, b) in reference.iter().zip(v.iter()) {
+            if a != b {
+                bad += 1;
+                if bad <= 3 {
+                    let c = cases.iter().find(|c| c.id == a.0).unwrap();
+                    println!("threads MISMATCH thread={} {} sequential={} concurrent={}", t, c.line(), a.1, b.1);
+                }
+            }
+        }
+    }
+    println!("threads done cases={} threads={} mismatches={}", reference.len(), threads, bad);
+    let _ = run_all;
+}
+
 fn cmd_tables() {
     for (name, b) in verif::opcode_table() {
         println!("opcode {} {:02x}", name, b);
@@ -593,6 +746,8 @@ fn main() {
         Some("oracle") => cmd_oracle(&args[1..]),
         Some("trace") => cmd_trace(&args[1..]),
         Some("gen") => cmd_gen(&args[1..]),
+        Some("seeds") => cmd_seeds(&args[1..]),
+        Some("threads") => cmd_threads(&args[1..]),
         Some("case") => cmd_case(&args[1..]),
         Some("tables") => cmd_tables(),
         Some("probe") => probe::cmd_probe(&args[1..]),
